@@ -48,7 +48,7 @@ def key_pool(draw, n, numeric=False):
     return keys
 
 
-_PREFIX = st.sampled_from(["", "76", "00", "ff00", "7631"])
+_PREFIX = st.sampled_from(["", "76", "00", "ff00", "7631", "ee"])
 _MODS = st.sampled_from([1, 2, 3, 251])
 
 
@@ -315,6 +315,8 @@ class World:
 
     @staticmethod
     def encode(spec, v):
+        if spec.get("prefix") == "ee":      # the value is the byte itself, 0 is the EMPTY value
+            return "" if v == 0 else "%02x" % v
         return (spec.get("prefix") or "") + "%02x" % v
 
     def evaluate(self, key, memo=None, stack=None, edges=None, skip_single=False):
@@ -349,7 +351,7 @@ class World:
                 edges.setdefault(key, []).append((i["key"], i["mode"]))
             v = self.evaluate(i["key"], memo, stack, edges, skip_single)
             if i["mode"] == "r":
-                vals[idx] = int(v[-2:], 16)
+                vals[idx] = int(v[-2:], 16) if v else 0
                 total += i["w"] * vals[idx]
         discs = []
         for d in spec["discs"]:
@@ -380,7 +382,7 @@ class World:
                     continue
             req.append((i["key"], i["mode"], idx))
             if i["mode"] == "r":
-                vals[idx] = int(self.evaluate(i["key"], memo)[-2:], 16)
+                vals[idx] = int(self.evaluate(i["key"], memo)[-2:] or "0", 16)
         discs = []
         for d in spec["discs"]:
             active = d["src"] < 0
